@@ -131,14 +131,34 @@ def semantics(cxs, toks):
     return out
 
 
+def _consistent(f, bi, cxs, want):
+    """drop the path contexts that contradict a guard dominating block bi (the path enumeration does not know that a
+    `?` follows the variant its operand was built with; the exact edge guards do)"""
+    fixed = {}
+    for c in f.conds(bi):
+        try:
+            kv = want(c)
+        except Exception:
+            kv = None
+        if kv:
+            fixed[kv[0]] = kv[1]
+    keep = [c for c in cxs if all(c.get(k, v) == v for k, v in fixed.items())]
+    return keep or cxs
+
+
 def outcomes(f):
     """outcome -> frozenset of contexts; plus order relation between tokens"""
     want = token(f)
+    _ctx0 = f.contexts
+    class _F:       # contexts filtered by the dominating guards
+        pass
+    def contexts_(bi, w):
+        return _consistent(f, bi, _ctx0(bi, w), w)
     out = {}
     # error sites
     for bi, st, e in q.agg_sites(f, 'error::StratError'):
         var = e[1].split('::')[-1]
-        cxs = f.contexts(bi, want)
+        cxs = contexts_(bi, want)
         # an error passed to ok_or materialises on the miss edge of the `?`
         ok_or_uses = [x for bj, kind, x in q.local_uses(f, st['pl']['l']) if kind == 'arg' and short(x['callee'].get('path') or '') == 'ok_or'] if not st['pl']['p'] else []
         used_in_ok_or = bool(ok_or_uses)
@@ -154,17 +174,17 @@ def outcomes(f):
     # dense writes: stores into an indexed f64 slice that is the returned box
     for bi, st, pl, rhs in q.stores(f):
         if st['pl']['p'] and st['pl']['p'][-1]['k'] == 'index' and st['pl']['ty'] == 'f64':
-            cxs = f.contexts(bi, want)
+            cxs = contexts_(bi, want)
             out.setdefault('write', set()).update(frozenset(c.items()) for c in cxs)
     # seen flags
     for bi, st, pl, rhs in q.stores(f):
         if st['pl']['ty'] == 'bool' and is_const(rhs, 1):
-            cxs = f.contexts(bi, want)
+            cxs = contexts_(bi, want)
             out.setdefault('seen', set()).update(frozenset(c.items()) for c in cxs)
     # Ok
     for bi, st, e in q.agg_sites(f, 'result::Result', 'Ok'):
         if st['pl']['l'] == 0:
-            cxs = f.contexts(bi, want)
+            cxs = contexts_(bi, want)
             out.setdefault('Ok', set()).update(frozenset(c.items()) for c in cxs)
     # order relation
     toks = {}
@@ -271,8 +291,22 @@ def run(ctx):
         lay = False
         for bi, t, e in sb:
             cf, _ = q.closure_of(lib, e[2][1])
-            lay = (q.maps_num_actions(lib, cf) or q.maps_num_actions(lib, q.find_sub(e[2][1], lambda x: x[0] == 'fn'))) and q.find_sub(e[2][1], lambda x: x[0] == 'param' and x[1] == 2) is not None
-        ctx.verdict(lay, 'C14.layout', 'C14.layout:%s:partition' % nm, 'the dense vector is partitioned by num_actions of the same infoset table the indices were allocated from', f.where(sb[0][0]) if sb else f.where(0), 'found: %s' % lay)
+            def from_infos(x_):
+                if q.find_sub(x_, lambda x: x[0] == 'param' and x[1] == 2) is not None:
+                    return True
+                # the table kept in a context record built in this function (`DenseWeights { infos, .. }`)
+                for y in facts.walk(x_):
+                    if y[0] == 'field' and strip_refs(y[1])[0] == 'var':
+                        v0 = q.record_field_init(f, strip_refs(y[1])[1], y[2])
+                        if v0 is not None and q.find_sub(v0, lambda x: x[0] == 'param' and x[1] == 2) is not None:
+                            return True
+                return False
+            lay = (q.maps_num_actions(lib, cf) or q.maps_num_actions(lib, q.find_sub(e[2][1], lambda x: x[0] == 'fn'))) and from_infos(e[2][1])
+        recognisable = any(q.find_sub(e[2][1], lambda x: q.is_call(x, 'map')) is not None for bi, t, e in sb)
+        if not lay and not recognisable:
+            ctx.anchor_lost('C14.layout', '%s: the lengths the dense vector is split by' % nm, 'not a map over the infoset table')
+        else:
+          ctx.verdict(lay, 'C14.layout', 'C14.layout:%s:partition' % nm, 'the dense vector is partitioned by num_actions of the same infoset table the indices were allocated from', f.where(sb[0][0]) if sb else f.where(0), 'found: %s' % lay)
     # index allocation walks infos in order with a running counter
     rule = 'C14.layout'
     for f, nm in ((fa, 'strat_into_box'), (fb, 'strat_into_box_slow')):
